@@ -212,6 +212,14 @@ def check_case(case: dict) -> Outcome:
         out.label("second-backend")
     out.label("probe:" + case["probe_via"])
     desc = f"history {hist} then b{pb}.{case['probe_via']}(probe {probe['logsource']} {probe['detection']['condition']})"
+    if probe.get("_with_correlation") and case["probe_via"] == "convert" and got[0] == "ok" and got[1] and "corr⟦" in got[1][-1]:
+        # field-name tracking belongs to one rule: for the correlation rule none of its group-by fields was produced
+        # by the mapping item, so the item conditioned on "not processed by the mapping" must have renamed all of them
+        # (also on fresh objects the rule converted just before must not count)
+        q = got[1][-1]
+        gb = q[q.index("groupby⟦"):q.index("field⟦", q.index("groupby⟦"))] if "groupby⟦" in q else ""
+        if not all(("u." + f) in gb for f in ("mapped_g", "m1", "h")):
+            out.fail("C15:field-tracking-leaks-into-next-rule", f"{desc}: group-by of the correlation rule is {gb!r}: the tracking of the rule converted before it was still visible")
     if fresh1 != fresh2:
         out.fail("C15:process-level-leak", f"{desc}: fresh result before {fresh1} != fresh result after {fresh2}")
     if got != fresh2:
